@@ -390,7 +390,7 @@ pub fn arb_plain_attr(o: GenOpts) -> BoxedStrategy<RAttr> {
                 RAttr::UnknownAttributes(out)
             })
             .boxed(),
-        (arb_opaque(60), arb_opaque(60))
+        (arb_keytext(60), arb_keytext(60))
             .prop_map(|(user, realm)| RAttr::UserHash(UserHashSpec::Names { user, realm }))
             .boxed(),
         arb_alg().prop_map(RAttr::PasswordAlgorithm).boxed(),
